@@ -27,8 +27,15 @@ impl DataType { pub fn is_null(&self) -> (r: bool) ensures r == self.null { self
 pub struct Schema { _p: () }
 impl Schema {
     pub uninterp spec fn columns(&self) -> Seq<Column>;
+    pub uninterp spec fn num_keys(&self) -> nat;
+    // the collections behind Schema::iter_columns / iter_keys / iter_values (the values are the
+    // columns after the keys)
     #[verifier::external_body]
-    pub fn cols(&self) -> (r: &Vec<Column>) ensures r@ == self.columns() { unimplemented!() }
+    pub fn columns_vec(&self) -> (r: &Vec<Column>) ensures r@ == self.columns() { unimplemented!() }
+    #[verifier::external_body]
+    pub fn values_vec(&self) -> (r: &Vec<Column>) ensures self.num_keys() <= self.columns().len(), r@ == self.columns().subrange(self.num_keys() as int, self.columns().len() as int) { unimplemented!() }
+    #[verifier::external_body]
+    pub fn keys_vec(&self) -> (r: &Vec<Column>) ensures self.num_keys() <= self.columns().len(), r@ == self.columns().subrange(0, self.num_keys() as int) { unimplemented!() }
 }
 
 pub open spec fn violates(cols: Seq<Column>, values: Seq<DataType>) -> bool {
@@ -38,7 +45,7 @@ pub open spec fn violates(cols: Seq<Column>, values: Seq<DataType>) -> bool {
 pub struct ConstraintValidator<'a> { table_name: Name, schema: &'a Schema }
 impl<'a> ConstraintValidator<'a> {
 //@fn crates/axmos-db/src/runtime/validator.rs | impl<'a> ConstraintValidator<'a> | validate_not_null_constraints
-//@ sub /for \(idx, col\) in self\.schema\.iter_columns\(\)\.enumerate\(\) \{/ => let cols = self.schema.cols(); for idx in 0..cols.len() { let col = &cols[idx];
+//@ sub /for \(idx, col\) in self\.schema\.iter_(columns|values|keys)\(\)\.enumerate\(\) \{/ => let cols = self.schema.\1_vec(); for idx in 0..cols.len() { let col = &cols[idx];
 //@ ensures
 //@   [C07:notnull.rejects_every_violation] violates(self.schema.columns(), values@) ==> r is Err,
 //@   [C07:notnull.accepts_everything_else] !violates(self.schema.columns(), values@) ==> r is Ok,
